@@ -208,8 +208,9 @@ def run_case(case):
       if canon != raw:
         st_["noncanon"] += 1
       meta = {"seq": seq[0], "h": h, "d": d, "tmpl": (fop.get("t", 0) % 6, fop.get("v", 0) & 1),
-              "origin": where[h], "raw": raw}
+              "origin": where[h], "raw": raw, "canon": canon}
       frames[canon] = meta
+      frames[raw] = meta          # (identity of POX's parse -> pack on these frames is C14's subject, not judged here)
       # non-trivial rule
       if d[0] == "h":
         if d[1] in st_["moved_sent"]:
@@ -234,7 +235,7 @@ def run_case(case):
           continue
         if hp["sw"] != meta["origin"][0]:
           st_["multi_hop"] = True
-        bad = [(p, x) for (p, x) in hp["outs"] if x != data]
+        bad = [(p, x) for (p, x) in hp["outs"] if x != data and x != meta["canon"]]
         if bad:
           out.fail("frame-altered", "switch %d emitted altered bytes for frame %d on ports %r" % (
               hp["sw"], meta["seq"], [p for p, _ in bad]))
